@@ -150,7 +150,8 @@ PROPS["C16"] = dict(
 PROPS["C19"] = dict(
     modules=["Proofs.C19", "Proofs.Findings.C19"],
     theorems=["Goflow.C19.inv_init", "Goflow.C19.inv_step", "Goflow.C19.inv_run", "Goflow.C19.no_closed_write",
-              "Goflow.C19.each_once", "Goflow.C19.units_in_one_file", "Goflow.Findings.C19.closed_write_possible"],
+              "Goflow.C19.each_once", "Goflow.C19.units_in_one_file", "Goflow.Findings.C19.closed_write_possible",
+              "Goflow.C19.skeleton_matches", "Goflow.C19.open_appends"],
     generators=[dict(name="C19", quick=12, thorough=300, subseeds=4)],
     harness=["impl"],
     count_all=True,
